@@ -63,8 +63,9 @@ type tmplInfo struct {
 	Path     string
 	Text     string
 	Tree     *parse.Tree
-	Fields   map[string]bool // every .Field referenced at top level (dot = Tree)
-	BoolVars []string        // fields used as {{if}} conditions
+	Trees    map[string]*parse.Tree // the main template and its {{define}}d sub-templates
+	Fields   map[string]bool        // every .Field referenced at top level (dot = Tree)
+	BoolVars []string               // fields used as {{if}} conditions
 	Err      error
 }
 
@@ -83,6 +84,7 @@ func loadTemplate(r *Repo) *tmplInfo {
 		return ti
 	}
 	ti.Tree = trees["peg"]
+	ti.Trees = trees
 	bools := map[string]bool{}
 	var walk func(n parse.Node, dotIsTree bool)
 	var pipeFields func(p *parse.PipeNode, dotIsTree bool, isCond bool)
@@ -133,6 +135,17 @@ func loadTemplate(r *Repo) *tmplInfo {
 		}
 	}
 	walk(ti.Tree.Root, true)
+	// sub-templates ({{define}}): executed with the tree as their dot
+	var names []string
+	for nm := range trees {
+		names = append(names, nm)
+	}
+	sort.Strings(names)
+	for _, nm := range names {
+		if t := trees[nm]; t != nil && t != ti.Tree && t.Root != nil {
+			walk(t.Root, true)
+		}
+	}
 	for b := range bools {
 		ti.BoolVars = append(ti.BoolVars, b)
 	}
@@ -345,6 +358,7 @@ func (ti *tmplInfo) instantiateRaw(cfg tmplConfig) (string, []int, error) {
 		return evalArg(cmd.Args[0], dot)
 	}
 	evalPipeRec = evalPipe
+	depth := 0
 	var walk func(n parse.Node, dot any) error
 	walk = func(n parse.Node, dot any) error {
 		switch x := n.(type) {
@@ -391,6 +405,40 @@ func (ti *tmplInfo) instantiateRaw(cfg tmplConfig) (string, []int, error) {
 				}
 			}
 		case *parse.CommentNode:
+		case *parse.TemplateNode:
+			sub := ti.Trees[x.Name]
+			if sub == nil || sub.Root == nil {
+				return fmt.Errorf("template %q is not defined", x.Name)
+			}
+			nd := dot
+			if x.Pipe != nil {
+				v, err := evalPipe(x.Pipe, dot)
+				if err != nil {
+					return err
+				}
+				nd = v
+			}
+			depth++
+			if depth > 20 {
+				return fmt.Errorf("templates nested too deeply (recursion?)")
+			}
+			err := walk(sub.Root, nd)
+			depth--
+			return err
+		case *parse.WithNode:
+			v, err := evalPipe(x.Pipe, dot)
+			if err != nil {
+				return err
+			}
+			truthy := v != nil && v != false && v != "" && v != 0
+			if l, ok := v.([]any); ok {
+				truthy = len(l) > 0
+			}
+			if truthy {
+				return walk(x.List, v)
+			} else if x.ElseList != nil {
+				return walk(x.ElseList, dot)
+			}
 		default:
 			return fmt.Errorf("template node %T not modelled", n)
 		}
@@ -420,7 +468,7 @@ func defaultImports(ast bool) []string {
 }
 
 var (
-	compileImportsOnce sync.Once
+	compileImportsOnce                                           sync.Once
 	compileImportsAlways, compileImportsAst, compileImportsNoAst []string
 )
 
@@ -754,7 +802,6 @@ func (in *inst) initClosures() (initFn *ssa.Function, byName map[string]*ssa.Fun
 	}
 	return
 }
-
 
 // runtimeInstances builds every template valuation (with the synthetic tail)
 // plus the checked-in peg.peg.go as an extra, independent instance.
